@@ -1,5 +1,7 @@
 import Model.Cache
 import Model.Numscript.Spec
+import Model.Numscript.VM
+import Generated.Opcodes
 /-! C08 — compiled programs do what the source says.
 `Spec.run` is the definition of "what the source text says".  What is proved here (growing):
 * rejection: a program the static rules reject is refused, never run (`rejected_not_run`);
@@ -17,6 +19,23 @@ theorem rejected_not_run (P : Script) (req : Request) (store : Store) (h : check
 
 
 
+
+/-! ### model A2 — the bytecode level -/
+
+/-- the opcode numbering of the model is the one of `vm/program/instructions.go` (regenerated on every run) -/
+theorem opcode_table_matches : Generated.opcodes = Num.opcodeTable := by decide
+
+/-- the `machine.Type` numbering of the model is the one of `machine/value.go` (regenerated on every run) -/
+theorem type_table_matches : Generated.types = Num.typeTable := by decide
+
+/-- every instruction's opcode byte and Go name are an entry of the (tied) table -/
+theorem opcode_in_table (i : Instr) : (i.name, i.opcode) ∈ Num.opcodeTable := by
+  cases i <;> simp [Num.opcodeTable, Num.allInstrs, Instr.name, Instr.opcode]
+
+/-- compiling is a function of the program alone: the same program compiles to the same bytecode, resources,
+needed balances and sources (or to the same refusal) — no hidden state, whatever was compiled before -/
+theorem compile_deterministic (P : Script) (r₁ r₂ : Except CompileErr Program)
+    (h₁ : compile P = r₁) (h₂ : compile P = r₂) : r₁ = r₂ := h₁ ▸ h₂ ▸ rfl
 
 /-- invariant of the cache: every entry is the compilation of some text with that digest -/
 def CacheInv {Text Key Prog : Type} (H : Text → Key) (compile : Text → Option Prog) (c : Cache.Store Key Prog) : Prop :=
